@@ -80,6 +80,10 @@ class _Profiler:
         return out
 
 
+def _obs(o):
+    return o() if callable(o) else o
+
+
 def _eval_clause_concrete(v):
     if isinstance(v, bool):
         return v
@@ -125,7 +129,7 @@ def run_task(args):
             inp = core.SymbolicInput(c)
             return ob.fn(inp, **params)
 
-        first = True
+        first = not os.environ.get('PVF_NOPROFILE')
         gen = core.explore(fn, max_paths=ob.budget)
         while True:
             if first:
@@ -146,8 +150,15 @@ def run_task(args):
                 nt = c.sat(nt.e)
             if nt:
                 out['nontrivial'] += 1
-            for cname, cl in res.clauses.items():
-                clause_names.add(cname)
+            clause_names.update(res.clauses)
+            # fast path: one query decides all clauses of the path; details only if it is sat
+            todo = list(res.clauses.items())
+            if all(not (isinstance(cl, bool) and not cl) for _, cl in todo):
+                symb = [core.zb(cl) for _, cl in todo if not isinstance(cl, bool)]
+                out['decided'] += 1
+                if not symb or not c.sat(z3.Not(z3.And(*symb))):
+                    todo = []
+            for cname, cl in todo:
                 if isinstance(cl, bool):
                     if cl:
                         continue
@@ -171,7 +182,7 @@ def run_task(args):
                     vals = core.model_values(c, c.model())
                     cl_res, obs = replay(obname, params, vals)
                     rec = dict(clause=cname, inputs=vals, params=params, obligation=obname,
-                               obs=_jsonable(obs), path_obs=_jsonable(res.obs))
+                               obs=_jsonable(_obs(obs)), path_obs=_jsonable(_obs(res.obs)))
                     if cl_res is not None and cl_res.get(cname) is False:
                         out['violations'].append(rec)
                     else:
@@ -180,7 +191,7 @@ def run_task(args):
             if len(out['samples']) < SAMPLES_PER_TASK and nt:
                 if c.sat():
                     out['samples'].append(dict(obligation=obname, params=params, inputs=core.model_values(c, c.model()),
-                                               path_decisions=len(c.trace), obs=_jsonable(res.obs)))
+                                               path_decisions=len(c.trace), obs=_jsonable(_obs(res.obs))))
             out['queries'] += c.queries
             out['solver_s'] += c.solver_s
             if len(out['violations']) + len(out['spurious']) >= MAX_VIOL_PER_TASK:
@@ -226,7 +237,7 @@ def main(argv=None):
         cl, obs = replay(r['obligation'], r['params'], r['inputs'])
         print('replay %s %s params=%s' % (r['property'], r['obligation'], r['params']))
         print('inputs:', json.dumps(r['inputs'], sort_keys=True))
-        print('observations:', json.dumps(_jsonable(obs), sort_keys=True))
+        print('observations:', json.dumps(_jsonable(_obs(obs)), sort_keys=True))
         print('clauses:', cl)
         bad = cl is not None and any(v is False for v in cl.values())
         if bad:
@@ -340,7 +351,7 @@ def main(argv=None):
                              'values within the bounds); sat models are replayed with plain Python values before a VIOLATION is printed'),
                 evaluations=sum(d['decided'] for d in per_ob.values()),
                 distinct_nontrivial=sum(d['nontrivial'] for d in per_ob.values()),
-                rule=('evaluations = deciding solver queries (one per clause per feasible path); distinct_nontrivial = '
+                rule=('evaluations = deciding solver queries (path_condition AND NOT(all oracle clauses) per feasible path, plus one per clause where that is sat); distinct_nontrivial = '
                       'feasible paths (distinct decision sequences) on which the obligation antecedent is satisfiable'),
                 paths=sum(d['paths'] for d in per_ob.values()),
                 solver_queries=sum(d['queries'] for d in per_ob.values()),
